@@ -516,6 +516,24 @@ impl<'r, 'a> Collector<'r, 'a> {
         // new block, so it is checked on both paths
         if self.rw.on("R15") && iter_expr.is_some() {
             for st in &body.stmts {
+                // R15 (let-else form): `let PAT = E else { continue; };` -> `if let PAT = E { rest }`
+                if let syn::Stmt::Local(l) = st {
+                    if let Some(init) = &l.init {
+                        if let Some((_, els)) = &init.diverge {
+                            let only_continue = match &**els {
+                                syn::Expr::Block(b) => b.block.stmts.len() == 1 && matches!(&b.block.stmts[0], syn::Stmt::Expr(syn::Expr::Continue(c), _) if c.label.is_none()),
+                                _ => false,
+                            };
+                            if only_continue {
+                                let pat = self.rw.text(&l.pat).to_string();
+                                let val = self.render(&init.expr);
+                                self.edits.push(Edit { range: rng(st), text: format!("if let {pat} = {val} {{"), prio: 0 });
+                                self.edits.push(Edit { range: close.start..close.start, text: "}\n".to_string(), prio: 8 });
+                                self.rw.log.push(format!("R15 `let .. else {{ continue; }}` in loop {key} -> if-let around the rest of the body"));
+                            }
+                        }
+                    }
+                }
                 if let syn::Stmt::Expr(syn::Expr::If(ife), _) = st {
                     let only_continue = ife.else_branch.is_none() && ife.then_branch.stmts.len() == 1 && matches!(&ife.then_branch.stmts[0], syn::Stmt::Expr(syn::Expr::Continue(c), _) if c.label.is_none());
                     if only_continue {
